@@ -403,6 +403,12 @@ def runNumeric (lines : List String) : IO Unit := do
       a := a.bump "gf_matsubara_values"
       a ← truncCheck a "C19" s!"gfn {i} {j} {n}" s!"G_{i}{j}(n={n})" [v] (2.0 * s.truncEps * Float.ofNat s.dim / Float.abs z.im)
       a := remember a s!"gfn {i} {j} {n}" [v]
+      if a.truncated then
+        -- stripe rule: a block pair is skipped only when both of its blocks are discarded
+        let (gk, bk, tk) := specG s w ci cj z (keepOf s)
+        a := a.bump "stripe_rule_checks"
+        if !closeC v gk (bk + 1.0e-9 * (1.0 + tk)) then
+          a ← fail a "C19" s!"stripe rule: after truncation G_{i}{j}(iw_{n}) = ({v.re},{v.im}) is not the sum over the block pairs with a retained block ({gk.re},{gk.im})"
       if !a.truncated then
         if !closeC v g (budget + 1.0e-9 * (1.0 + tot)) then
           a ← fail a "C01" s!"G_{i}{j}(iw_{n}) = ({v.re},{v.im}) differs from the definition ({g.re},{g.im}) by {(v - g).abs} > budget {budget}"
@@ -488,6 +494,11 @@ def runNumeric (lines : List String) : IO Unit := do
           if !(k == l && n4 == int! n3) && !closeC v (-u) (1.0e-8 * (1.0 + tot)) then
             a ← fail a "C13" s!"chi_{i}{j}{l}{k}({n1},{n2};{n4}) = ({u.re},{u.im}) is not -chi_{i}{j}{k}{l}({n1},{n2};{n3}) = ({-v.re},{-v.im})"
         | _ => pure ()
+      if a.truncated && !amb then
+        let (xk, _, tk) := specChi s w #[ci, cj, adjoint ck] (adjoint cl) zs (keepOf s)
+        a := a.bump "stripe_rule_checks"
+        if !closeC v xk (1.0e-8 * (1.0 + tk)) then
+          a ← fail a "C19" s!"stripe rule: after truncation chi_{i}{j}{k}{l}({n1},{n2};{n3}) = ({v.re},{v.im}) is not the sum over the world stripes with a retained block ({xk.re},{xk.im})"
       if amb then a := { a with ambiguous := a.ambiguous + 1 }
       else if !a.truncated && !closeC v x (1.0e-8 * (1.0 + tot)) then
         a ← fail a "C02" s!"chi_{i}{j}{k}{l}({n1},{n2};{n3}) = ({v.re},{v.im}) differs from the definition ({x.re},{x.im}) by {(v - x).abs}"
@@ -517,6 +528,10 @@ def runNumeric (lines : List String) : IO Unit := do
       a := a.bump "ensemble_averages"
       a ← truncCheck a "C19" s!"avg {p} {q}" s!"<c+_{p} c_{q}>" [v] (s.truncEps * Float.ofNat s.dim)
       a := remember a s!"avg {p} {q}" [v]
+      if a.truncated then
+        a := a.bump "stripe_rule_checks"
+        if !closeC v (traceWeighted w A (keepOf s)) 1.0e-9 then
+          a ← fail a "C19" s!"stripe rule: after truncation <c+_{p} c_{q}> = ({v.re},{v.im}) is not the trace over the retained blocks"
       if !a.truncated && !closeC v want 1.0e-9 then
         a ← fail a "C09" s!"ensemble average <c+_{p} c_{q}> = ({v.re},{v.im}) vs Tr(rho c+ c) = ({want.re},{want.im})"
     | ["o", "susc", p, q, r, t, n, r0, i0, r1, i1, r2, i2, r3, i3] =>
@@ -532,6 +547,11 @@ def runNumeric (lines : List String) : IO Unit := do
              (if int! n == 0 then s.beta * s.truncEps * Float.ofNat s.dim else 2.0 * s.truncEps * Float.ofNat s.dim / Float.abs omega)
       a := remember a s!"susc {p} {q} {r} {t} {n}" [v0]
       if sp.unsure > 0.0 then a := { a with ambiguous := a.ambiguous + 1 }
+      if a.truncated then
+        let spk := specSusc s w A B (int! n) (keepOf s)
+        a := a.bump "stripe_rule_checks"
+        if !closeC v0 spk.x (1.0e-8 * (1.0 + spk.tot) + spk.ideal + spk.unsure + spk.filtered.abs) then
+          a ← fail a "C19" s!"stripe rule: after truncation chi_({p}{q})({r}{t})(iW_{n}) = ({v0.re},{v0.im}) is not the sum over the block pairs with a retained block ({spk.x.re},{spk.x.im})"
       if !a.truncated then
         -- terms below the documented residue tolerance may be dropped, but only while their total stays at the
         -- level of numerical precision (otherwise the value is genuinely wrong); a deviation that is explained by
@@ -549,6 +569,14 @@ def runNumeric (lines : List String) : IO Unit := do
         for (nm, vv) in [("subtractDisconnected()", v1), ("subtractDisconnected(a,b)", v2), ("subtractDisconnected(EA,EB)", v3)] do
           if !closeC (v0 - vv) d (1.0e-9 * (1.0 + d.abs)) then
             a ← fail a "C14" s!"{nm}: value differs from the plain one by ({(v0 - vv).re},{(v0 - vv).im}) at n={n}, expected ({d.re},{d.im})"
+    | ["o", kind, p, q, r, t, n, r0, i0, r1, i1, r2, i2, r3, i3] =>
+      -- copies of computed susceptibility objects evaluate like the originals (bitwise)
+      if kind == "susccopy" || kind == "susccopytau" then
+        a := a.bump "susc_copy_checks"
+        if r0 != r1 || i0 != i1 then
+          a ← fail a "C14" s!"copy of chi_({p}{q})({r}{t}) with the disconnected part subtracted evaluates differently from the original at {n}: ({(parseC r1 i1).re},{(parseC r1 i1).im}) vs ({(parseC r0 i0).re},{(parseC r0 i0).im})"
+        if r2 != r3 || i2 != i3 then
+          a ← fail a "C14" s!"copy of chi_({p}{q})({r}{t}) evaluates differently from the original at {n}"
     | ["o", "susctau", p, q, r, t, tau, r0, i0, r1, i1] =>
       let s := a.s; let w := specWeights s
       let A := rotate s (opFock s "quad" (nat! p) (nat! q))
@@ -587,7 +615,7 @@ def runNumeric (lines : List String) : IO Unit := do
           a ← fail a "C12" s!"quadratic model: vertex ({i}{j}{k}{l}) at ({n1},{n2},{n3}) = ({v.re},{v.im}) does not vanish (chi = ({x.re},{x.im}))"
     | "o" :: "retained" :: _ :: flags =>
       let s := a.s
-      a := { a with truncated := true, cRot := a.cRot }
+      a := { a with truncated := true, cRot := a.cRot, s := { s with retained := (flags.map (· == "1")).toArray } }
       a := a.bump "truncations"
       for b in List.range flags.length do
         let any := (List.range (s.blocks[b]!).size).any fun i => s.wImpl[kIndex s b i]! > s.truncEps
